@@ -3,6 +3,7 @@ package main
 import (
 	"fmt"
 	"go/token"
+	"go/types"
 	"strings"
 
 	"golang.org/x/tools/go/ssa"
@@ -103,7 +104,15 @@ func runC20(c *Ctx) {
 			continue
 		}
 		kr, _ := constInt(rem.Y)
+		// the value divided must be signed (negative = before 1970): an unsigned division turns it into year 586524
+		if b, isB := q.X.Type().Underlying().(*types.Basic); !isB || b.Info()&types.IsUnsigned != 0 {
+			gotDec = "the microsecond count is split in unsigned arithmetic: timestamps before 1970 are corrupted"
+			continue
+		}
 		tm, okT := orTerms(q.X, func(v ssa.Value) bool {
+			if a, isA := v.(*ssa.Alloc); isA && isByteArrayPtr(a.Type()) {
+				return true
+			}
 			if _, ok := staticLen(v); ok {
 				return true
 			}
@@ -224,7 +233,9 @@ func runC20(c *Ctx) {
 	}
 	ri := c.Fn("pkg/tlog", "Reader.Initialize")
 	sites := []site{
-		{w, "user ByteWriter.Write", func(n string, cc *ssa.CallCommon) bool { return cc.IsInvoke() && cc.Method.Name() == "Write" && ex(cc.Value) == "recv.ByteWriter" }},
+		{w, "user ByteWriter.Write", func(n string, cc *ssa.CallCommon) bool {
+			return cc.IsInvoke() && cc.Method.Name() == "Write" && ex(cc.Value) == "recv.ByteWriter"
+		}},
 		{w, "frame writer Write", func(n string, cc *ssa.CallCommon) bool { return n == "(frame.Writer).Write" }},
 		{rd, "io.ReadFull", func(n string, cc *ssa.CallCommon) bool { return n == "io.ReadFull" }},
 		{rd, "frame reader Read", func(n string, cc *ssa.CallCommon) bool { return n == "(frame.Reader).Read" }},
